@@ -12,8 +12,8 @@ use crate::charsets::Charset;
 #[derive(Debug)]
 pub struct TextReader<R> {
     inner: DecodeReaderBytes<R, Vec<u8>>,
-    // Decoded bytes waiting for a caller that reads with very small buffers.
-    pending: [u8; 4],
+    // Decoded bytes waiting for a caller that reads with small buffers.
+    pending: [u8; 64],
     pending_pos: usize,
     pending_len: usize,
 }
@@ -26,7 +26,7 @@ where
     pub fn new(inner: R, charset: Charset) -> Self {
         Self {
             inner: DecodeReaderBytesBuilder::new().encoding(Some(charset)).build(inner),
-            pending: [0; 4],
+            pending: [0; 64],
             pending_pos: 0,
             pending_len: 0,
         }
@@ -43,8 +43,9 @@ where
                 return self.inner.read(buf);
             }
 
-            // The decoder loses the tail of the final replacement character when it is handed a
-            // buffer that cannot hold a whole UTF-8 sequence, so always give it room for one.
+            // At the end of the stream the decoder writes whatever it still holds (replacement
+            // characters for an incomplete sequence, bytes it had set aside) into the buffer it is
+            // handed and drops what does not fit, so always give it ample room.
             self.pending_len = self.inner.read(&mut self.pending)?;
             self.pending_pos = 0;
         }
